@@ -72,6 +72,7 @@ type Result struct {
 	Blocked   []string // descriptions of goroutines still blocked at the end
 	Live      int
 	Ticks     int
+	Aborted   bool // the harness cut the execution (simulated process death)
 }
 
 type Sched struct {
@@ -85,6 +86,7 @@ type Sched struct {
 	steps   int
 	ticks   int
 	crashed string
+	aborted bool
 	killed  bool
 	reg     *registry
 	tickers []*Ticker
@@ -294,7 +296,7 @@ func Run(cfg Config, main func()) *Result {
 	s.spawn(g0, main)
 	quiescent := false
 	for {
-		if s.crashed != "" || s.steps >= s.cfg.MaxSteps {
+		if s.crashed != "" || s.aborted || s.steps >= s.cfg.MaxSteps {
 			break
 		}
 		en := s.enabledList()
@@ -328,7 +330,7 @@ func Run(cfg Config, main func()) *Result {
 			panic("verifrt: livelock")
 		}
 	}
-	res := &Result{Choices: s.choices, Steps: s.steps, Crashed: s.crashed, Quiescent: quiescent, Ticks: s.ticks}
+	res := &Result{Choices: s.choices, Steps: s.steps, Crashed: s.crashed, Quiescent: quiescent, Ticks: s.ticks, Aborted: s.aborted}
 	for _, g := range s.gs {
 		if !g.done {
 			res.Live++
@@ -376,6 +378,17 @@ func GoRole(role string, fn func()) int {
 	s.logRaw("G", "spawn", fmt.Sprintf("g%d %s", g.id, role))
 	s.spawn(g, fn)
 	return g.id
+}
+
+// Abort ends the execution at this point as if the process had died: no goroutine runs any more.
+func Abort() {
+	s := S
+	if s.dead() {
+		return
+	}
+	s.aborted = true
+	s.logRaw("X", "abort", "simulated process death")
+	s.yield(&pending{desc: "aborted", enabled: func() bool { return false }})
 }
 
 // Yield is an explicit scheduling point for harness code (e.g. inside worker functions).
